@@ -73,7 +73,7 @@ enum {
     OP_FD_OPEN, OP_FD_WRITE, OP_FD_CLOSE, OP_FD_REG, OP_FD_DEREG, OP_TMR_REG, OP_TMR_DEREG, OP_SGN_REG, OP_SGN_DEREG, OP_RAISE,
     OP_PATH_REG, OP_PATH_DEREG, OP_TOUCH, OP_PID_REG, OP_PID_DEREG, OP_CHILD_SPAWN, OP_CHILD_KILL, OP_TASK_REG, OP_TASK_DEREG,
     OP_THRESH_REG, OP_THRESH_DEREG, OP_SRCLEN, OP_MSTATS, OP_LOOKUP, OP_EVT_RETAIN, OP_EVT_RELEASE, OP_EVT_CHECK, OP_MOD_REF, OP_MOD_UNREF,
-    OP_SLEEP, OP_ERRNO, OP_QUIESCE, OP_MOD_LOG, OP_MOD_DUMP, OP_NAMEOF, OP_FD_HUP, OP_OBS_DROP_KEEP, OP_BIND, OP_SIG_UNMASK, OP_FAULT, OP_MAX
+    OP_SLEEP, OP_ERRNO, OP_QUIESCE, OP_MOD_LOG, OP_MOD_DUMP, OP_NAMEOF, OP_FD_HUP, OP_OBS_DROP_KEEP, OP_BIND, OP_SIG_UNMASK, OP_FAULT, OP_RMPATH, OP_MAX
 };
 static const char *opnames[OP_MAX] = {
     "none", "ctx_register", "ctx_deregister", "ctx_loop", "ctx_dispatch", "ctx_dispatch_until", "ctx_quit", "ctx_finalize",
@@ -83,7 +83,7 @@ static const char *opnames[OP_MAX] = {
     "fd_open", "fd_write", "fd_close", "fd_reg", "fd_dereg", "tmr_reg", "tmr_dereg", "sgn_reg", "sgn_dereg", "raise",
     "path_reg", "path_dereg", "touch", "pid_reg", "pid_dereg", "child_spawn", "child_kill", "task_reg", "task_dereg",
     "thresh_reg", "thresh_dereg", "srclen", "mstats", "lookup", "evt_retain", "evt_release", "evt_check", "mod_ref", "mod_unref",
-    "sleep", "errno", "quiesce", "mod_log", "mod_dump", "nameof", "fd_hup", "obs_drop_keep_handle", "bind", "sig_unmask", "fault",
+    "sleep", "errno", "quiesce", "mod_log", "mod_dump", "nameof", "fd_hup", "obs_drop_keep_handle", "bind", "sig_unmask", "fault", "rmpath",
 };
 
 typedef struct { int op; long long a[6]; int na; } op_t;
@@ -573,6 +573,14 @@ static long long do_op(op_t *o) {
         ret = pthread_sigmask(SIG_UNBLOCK, &m, NULL); break; }
     case OP_PATH_REG: { m_src_path_t p = { paths[a[1]], (unsigned)a[4] }; ret = m_mod_src_register_path(H(a[0]), &p, (m_src_flags)a[2], ud_ptr(a[3], a[2] & ~M_SRC_AUTOFREE)); break; }
     case OP_PATH_DEREG: { m_src_path_t p = { paths[a[1]], 0 }; ret = m_mod_src_deregister_path(H(a[0]), &p); break; }
+    case OP_RMPATH: {   /* the watched directory goes away (a watch on it can no longer be set) */
+        int pi = (int)a[0]; if (pi < 0 || pi >= npaths) { ret = -1999; break; }
+        in_harness_io++;
+        DIR *d = opendir(paths[pi]);
+        if (d) { struct dirent *e; while ((e = readdir(d))) { if (e->d_name[0] == '.') continue; char f[400]; snprintf(f, sizeof(f), "%s/%s", paths[pi], e->d_name); unlink(f); } closedir(d); }
+        ret = rmdir(paths[pi]) == 0 ? 0 : -errno;
+        in_harness_io--;
+        break; }
     case OP_TOUCH: { char f[200]; static int ctr; snprintf(f, sizeof(f), "%s/f%d", paths[a[0]], ctr++); in_harness_io++; int fd = open(f, O_CREAT | O_WRONLY, 0600); if (fd >= 0) __real_close(fd); in_harness_io--; ret = fd >= 0 ? 0 : -errno; break; }
     case OP_CHILD_SPAWN: { pid_t p = fork(); if (p == 0) { for (;;) pause(); } children[a[0] & 7] = p; ret = p > 0 ? 0 : -errno; break; }
     case OP_CHILD_KILL: { pid_t p = children[a[0] & 7]; if (p > 0) { kill(p, SIGKILL); } ret = 0; break; }
